@@ -123,6 +123,10 @@ SCOPE_TOKENS = [
     ["a"], ["b"], [1], [2], [None], ["a", 1], ["a", "b"], [["enum", "RED"]], [["enum", "GREEN"]], [["enum", "BLUE"]],
     [["shape", "ROUND"]], [["tok", 1]], [["tok", 2]], [["tup", [1, "z"]]], [["tup", [2, "y"]]], [1.5], [["bool", 1]],
     ["a", ["enum", "RED"]], ["a", ["enum", "GREEN"]], [["fs", [1, 2]]], [["fs", [3]]], [], ["x.y.z"], [None, None],
+    # values that compare fine with themselves but not with each other
+    [["tup", ["shard", None]]], [["tup", ["shard", 3]]], [["tup", ["shard", "x"]]], [["tup", [["enum", "RED"]]]],
+    [["tup", [["enum", "GREEN"]]]], [["dtn", 5]], [["dta", 7]], [["dtn", 9]], [["cplx", 1]], [["cplx", 2]],
+    [["tup", [["tup", [1, None]], 2]]], [["tup", [["tup", [1, "k"]], 2]]], ["a", ["tup", [None]]], ["a", ["tup", [0]]],
 ]
 
 
